@@ -149,9 +149,14 @@ Record variant := {
                                    C01) or only looks at the given dictionary (false) *)
   vr_md20_default_ms : bool;    (* v20 MarkingDefinition: the clock default of `created` is kept at millisecond
                                    precision too (true) or only a given `created` is (false) *)
-  vr_ext_order_sorted : bool    (* with an unregistered toplevel-property-extension the extra and custom properties
+  vr_ext_order_sorted : bool;   (* with an unregistered toplevel-property-extension the extra and custom properties
                                    form one sorted run (true) or a set's iteration order then the sorted custom
                                    names (false: modelled sorted; C01) *)
+  vr_b64_strict : bool;         (* BinaryProperty decodes with validate=True: only RFC 4648 base64 text (true) or
+                                   whatever the lenient decoder takes, characters outside the alphabet skipped
+                                   (false; C02) *)
+  vr_detect_notype_parse : bool (* detect_spec_version on a dictionary without `type` (a bundle member): ParseError
+                                   (true; 3b082cc) or KeyError (false) *)
 }.
 Definition variant_pinned : variant :=
   {| vr_hex_z := false; vr_key_z := false; vr_sel_z := false; vr_hash_z := false; vr_interop_z := false; vr_uuid_canon := false; vr_year_pad := false;
@@ -159,14 +164,14 @@ Definition variant_pinned : variant :=
      vr_detect_default := false; vr_d2s_ext_guard := false; vr_toplevel_needs_slot := false; vr_ext_nonempty := false;
      vr_marking_flag := false; vr_flag_from_stored := false; vr_sock_int := false;
      vr_positional_none := false; vr_bundle20_recheck := false; vr_md20_default_ms := false;
-     vr_ext_order_sorted := false |}.
+     vr_ext_order_sorted := false; vr_b64_strict := false; vr_detect_notype_parse := false |}.
 Definition variant_repaired : variant :=
   {| vr_hex_z := true; vr_key_z := true; vr_sel_z := true; vr_hash_z := true; vr_interop_z := true; vr_uuid_canon := true; vr_year_pad := true;
      vr_sel_upper := true; vr_ref_flip_unreg := true; vr_parse_guard_custom := true; vr_ext_scan_guard := true;
      vr_detect_default := true; vr_d2s_ext_guard := true; vr_toplevel_needs_slot := true; vr_ext_nonempty := true;
      vr_marking_flag := true; vr_flag_from_stored := true; vr_sock_int := true;
      vr_positional_none := true; vr_bundle20_recheck := true; vr_md20_default_ms := true;
-     vr_ext_order_sorted := true |}.
+     vr_ext_order_sorted := true; vr_b64_strict := true; vr_detect_notype_parse := true |}.
 
 (* What the constructor draws from outside: its clock reading (one per constructor call: microseconds
    since 0001-01-01T00:00:00Z), the text of uuid.uuid4() and the text of the uuid5 of a 2.1 observable's
